@@ -28,7 +28,7 @@ package responder
 //@   ensures [C08] len(c.response.Header[canonkeyof(name)]) == 1 && sid(c.response.Header[canonkeyof(name)][0]) == sid(value)
 //@   ensures [C08] forall k key :: k != canonkeyof(name) ==> in(c.response.Header, k) == old(in(c.response.Header, k))
 
-//@ props C08 C10 C01 C16
+//@ props C08 C10 C01 C16 C15
 //@ func RawHTTPResponder.SetHeaders
 //@   nopanic
 //@   requires c.response != nil && c.response.Header != nil && headers != nil && c.response.Header != headers && specCanonKeys(headers)
@@ -48,7 +48,7 @@ package responder
 //@   loop 2 invariant forall k key :: k != keyid(key) && visited[k] && in(headers, k) ==> len(c.response.Header[k]) == len(headers[k])
 //@   loop 2 invariant forall k key, i int :: k != keyid(key) && visited[k] && in(headers, k) && 0 <= i && i < len(headers[k]) ==> sid(c.response.Header[k][i]) == sid(headers[k][i])
 
-//@ props C08 C10 C01 C16
+//@ props C08 C10 C01 C16 C15
 //@ func HTTPResponder.SetHeaders
 //@   nopanic
 //@   requires c.writer != nil && headers != nil && rwheader(c.writer) != headers && specCanonKeys(headers)
